@@ -235,7 +235,7 @@ func (e *Env) RunProperty(id string) int {
 		e.writeEvidence(id, spec, nil, seed, time.Since(t0), 0, 0, []string{"load error: " + err.Error()}, nil, P)
 		return 2
 	}
-	fmt.Printf("[%s] loaded %d packages in %.1fs (tier %s)\n", id, len(P.Pkgs), P.LoadTime.Seconds(), e.Tier)
+	fmt.Printf("[%s] loaded %d packages in %.1fs (ssa build %.1fs, tier %s)\n", id, len(P.Pkgs), P.LoadTime.Seconds(), P.BuildTime.Seconds(), e.Tier)
 	known := e.loadKnown()
 	var results []instResult
 	problems := []string{}
